@@ -371,6 +371,14 @@ class Interp:
     def operand(self, fn, fid, op, st):
         k = op["k"]
         if k == "const":
+            if op.get("static"):
+                # `&TABLE` of a static integer table (emitted with the consts): a pointer to its contents
+                c = self.F.consts.get(strip_generics(op["static"])) or self.F.consts.get(op["static"])
+                if c and c.get("elems") is not None and "[" in c.get("ty", ""):
+                    et = ty_info(c["ty"].strip("[]").split(";")[0].strip())
+                    if et:
+                        return self.heap_alloc(st, arr([const(int(x), et[0], et[1]) for x in c["elems"]]))
+                return TOP
             v = self.const_value(op, fn)
             if isinstance(v, tuple) and v and v[0] == "promoted":
                 return self.eval_promoted(fn, v[1], st)
@@ -838,6 +846,10 @@ class Interp:
                     if si < si0:
                         continue
                     if s["k"] == "Assign":
+                        lv = self.linear_lookup(fn, fid, s, st)
+                        if lv is not None:
+                            self.write_place(fn, fid, s["p"], lv, st)
+                            continue
                         sp = self.index_split(fn, fid, s, st)
                         if sp:
                             for s2 in sp:
@@ -931,6 +943,60 @@ class Interp:
                     continue
                 break
         return outs
+
+    def linear_lookup(self, fn, fid, s, st):
+        """`table[i]` with a table of integer constants and an index whose bits are affine forms: when the table is affine over
+        GF(2) on the index values that can occur (T[i ^ j] ^ T[0'] = (T[i] ^ T[0']) ^ (T[j] ^ T[0']) - every table-driven CRC is),
+        the element's bits are affine forms of the index bits and no case split is needed.  Checked on all reachable entries."""
+        rv = s["rv"]
+        if self.mode != "bv" or not (rv["k"] == "Use" and rv["op"].get("k") in ("copy", "move")):
+            return None
+        p = rv["op"]["p"]
+        if not p["proj"] or p["proj"][-1][0] != "index":
+            return None
+        iv = st.frames[fid].get(p["proj"][-1][1], TOP)
+        if not is_int(iv) or int_const(iv) is not None:
+            return None
+        bits = bits_of(iv)
+        if any(b_ == TOPBIT for b_ in bits):
+            return None
+        unk = [i for i, b_ in enumerate(bits) if b_ not in (0, 1)]
+        if not unk or len(unk) > 12:
+            return None
+        tab = self.read_place(fn, fid, {"l": p["l"], "proj": p["proj"][:-1]}, st)
+        if not (isinstance(tab, tuple) and tab and tab[0] == "arr"):
+            return None
+        elems = tab[1]
+        base = sum(1 << i for i, b_ in enumerate(bits) if b_ == 1)
+        top = base + sum(1 << i for i in unk)
+        if top >= len(elems):
+            return None
+        vals = []
+        for e in elems:
+            c = int_const(e) if is_int(e) else None
+            if c is None:
+                return None
+            vals.append(c)
+        w, signed = elems[0][1], elems[0][2]
+        t0 = vals[base]
+        delta = [vals[base | (1 << i)] ^ t0 for i in unk]
+        for u in range(1 << len(unk)):
+            idx, want = base, t0
+            for j, i in enumerate(unk):
+                if (u >> j) & 1:
+                    idx |= 1 << i
+                    want ^= delta[j]
+            if vals[idx] != want:
+                return None        # not affine: left to the case split
+        out = []
+        for j_ in range(w):
+            f = (t0 >> j_) & 1
+            for j, i in enumerate(unk):
+                if (delta[j] >> j_) & 1:
+                    f ^= bits[i]
+            out.append(f)
+        self.notes.append("linear table lookup (%d entries checked) in %s" % (1 << len(unk), fn.npath))
+        return mk_int(w, signed, tuple(out))
 
     def index_split(self, fn, fid, s, st):
         """Case split on a symbolic array index (table lookup): if the statement reads `table[i]` where the table holds
